@@ -21,7 +21,7 @@ package redis
 
 //@ func newConnWith
 //@ assigns cur_uuid, alloc
-//@ ensures {C13,C08} result != nil && fresh(result) && result.id == 0 && !result.authrized && result.username == "" && result.password == ""
+//@ ensures {C13,C08} result != nil && fresh(result) && result.id == 0 && !result.authrized && result.username == "" && result.password == "" && !result.hasPassword
 //@ ensures {C19} !result.isClosed && result.Conn == conn && result.tlsState == tlsState && result.Context == nil && result.uuid == cur_uuid
 
 //@ func (*Conn).Close
@@ -57,12 +57,12 @@ package redis
 //@ ensures result0 == conn.username && result1 == (0 < len(conn.username))
 
 //@ func (*Conn).SetPassword
-//@ assigns conn.password
-//@ ensures conn.password == password
+//@ assigns conn.password, conn.hasPassword
+//@ ensures {C08} conn.password == password && conn.hasPassword
 
 //@ func (*Conn).Password
 //@ assigns nothing
-//@ ensures result0 == conn.password && result1 == (0 < len(conn.password))
+//@ ensures {C08} result0 == conn.password && result1 == conn.hasPassword
 
 //@ func (*Conn).SetSpanContext
 //@ assigns conn.Context
@@ -169,14 +169,14 @@ package redis
 //@ func (*Server).handleMessage
 //@ requires srvOK(server) && conn != nil && msg != nil && conn.Context != nil && span_depth >= 0 && root_open == 1
 //@ requires {C08} server.userCommandHandler != nil ==> true
-//@ assigns proto.Array.index, conn.id, conn.authrized, conn.username, conn.password, map(server.ServerConfig.Config.params), H_*, span_depth, authed, alloc
+//@ assigns proto.Array.index, conn.id, conn.authrized, conn.username, conn.password, conn.hasPassword, comp:MD|Str|Str, comp:MV|Str|Str, H_*, span_depth, authed, alloc
 //@ ensures {C20} span_depth == old(span_depth)
 //@ ensures {C08} conn.authrized && !old(conn.authrized) ==> authed
 //@ ensures {C08} old(authed) ==> authed
 
 //@ func (*Server).handleArrayMessage
 //@ requires srvOK(server) && conn != nil && arrayMsg != nil && conn.Context != nil && span_depth >= 0 && root_open == 1
-//@ assigns proto.Array.index, conn.id, conn.authrized, conn.username, conn.password, map(server.ServerConfig.Config.params), H_*, span_depth, authed, alloc
+//@ assigns proto.Array.index, conn.id, conn.authrized, conn.username, conn.password, conn.hasPassword, comp:MD|Str|Str, comp:MV|Str|Str, H_*, span_depth, authed, alloc
 //@ ensures {C20} span_depth == old(span_depth)
 //@ ensures {C08} conn.authrized && !old(conn.authrized) ==> authed
 //@ ensures {C08} old(authed) ==> authed
@@ -218,19 +218,17 @@ package redis
 //@ requires conn != nil && args != nil && conn.Context != nil && span_depth >= 1 && root_open == 1
 //@ requires srvOK(server) && server.userCommandHandler != nil
 //@ requires {C08} conn.authrized || isAuthCmd(cmd)
-//@ assigns proto.Array.index, conn.id, conn.authrized, conn.username, conn.password, map(server.ServerConfig.Config.params), H_*, span_depth, authed, alloc
+//@ assigns proto.Array.index, conn.id, conn.authrized, conn.username, conn.password, conn.hasPassword, comp:MD|Str|Str, comp:MV|Str|Str, H_*, span_depth, authed, alloc
 //@ ensures {C20} span_depth == old(span_depth)
 //@ ensures {C08} conn.authrized && !old(conn.authrized) ==> authed
 //@ ensures {C08} old(authed) ==> authed
-//@ ensures {C08} !isAuthCmd(cmd) ==> conn.authrized == old(conn.authrized)
 
 //@ func (*Server).executeCommand
 //@ requires srvOK(server) && conn != nil && args != nil && conn.Context != nil && span_depth >= 0 && root_open == 1
-//@ assigns proto.Array.index, conn.id, conn.authrized, conn.username, conn.password, map(server.ServerConfig.Config.params), H_*, span_depth, authed, alloc
+//@ assigns proto.Array.index, conn.id, conn.authrized, conn.username, conn.password, conn.hasPassword, comp:MD|Str|Str, comp:MV|Str|Str, H_*, span_depth, authed, alloc
 //@ ensures {C20} span_depth == old(span_depth)
 //@ ensures {C08} conn.authrized && !old(conn.authrized) ==> authed
 //@ ensures {C08} old(authed) ==> authed
-//@ ensures {C08} !isAuthCmd(cmd) ==> conn.authrized == old(conn.authrized)
 //@ ensures {C08} !old(conn.authrized) && !isAuthCmd(cmd) ==> H_calls == old(H_calls) && !conn.authrized && err == ErrNotAuthrized || server.userCommandHandler == nil || !dom(server.commandExecutors, toUpper(cmd))
 //@ ensures {C05} server.userCommandHandler == nil || !dom(server.commandExecutors, toUpper(cmd)) ==> H_calls == old(H_calls) && err == nil && result0 != nil && result0.Type == proto.ErrorMessage
 
@@ -427,4 +425,128 @@ package redis
 //@ loop 0
 //@   invariant old(args.index) <= args.index && args.index <= len(args.msgs)
 //@   invariant {C17} opt.MatchPattern != nil && isGlob(opt.MatchPattern)
+//@   decreases len(args.msgs) - args.index + (err == nil ? 1 : 0)
+
+
+// ---------------------------------------------------------------- system_commander.go / server_auth.go (the handlers the server installs on itself)
+
+//@ func (*Server).Ping
+//@ assigns nothing
+//@ ensures {C12} err == nil && result0 != nil && fresh(result0)
+//@ ensures {C12} len(arg) == 0 ==> result0.Type == proto.StringMessage && string(result0.bytes) == "PONG"
+//@ ensures {C12} len(arg) != 0 ==> result0.Type == proto.BulkMessage && result0.bytes != nil && string(result0.bytes) == arg
+
+//@ func (*Server).Echo
+//@ assigns nothing
+//@ ensures {C12} err == nil && result0 != nil && fresh(result0) && result0.Type == proto.BulkMessage && result0.bytes != nil && string(result0.bytes) == arg
+
+//@ func (*Server).Select
+//@ requires conn != nil
+//@ assigns conn.id
+//@ ensures {C13} err == nil && result0 != nil && conn.id == index
+
+//@ func (*Server).Quit
+//@ assigns nothing
+//@ ensures {C03} err == ErrQuit && result0 != nil && fresh(result0) && result0.Type == proto.StringMessage && string(result0.bytes) == "OK"
+
+//@ func (*Server).ConfigSet
+//@ requires srvOK(server)
+//@ assigns map(server.ServerConfig.Config.params)
+//@ ensures {C12} err == nil && result0 != nil
+
+//@ func (*Server).ConfigGet
+//@ requires srvOK(server)
+//@ assigns nothing
+//@ ensures {C12} err == nil && result0 != nil && fresh(result0) && result0.Type == proto.ArrayMessage && result0.array != nil
+//@ ensures {C12} len(result0.array.msgs) == 2 * len(keys)
+//@ loop 0
+//@   invariant msg != nil && fresh(msg) && msg.Type == proto.ArrayMessage && msg.array != nil && fresh(msg.array) && fresh(msg.array.msgs)
+//@   invariant -1 <= rangeindex && rangeindex < len(keys) && len(msg.array.msgs) == 2 * (rangeindex + 1)
+//@   decreases len(keys) - rangeindex
+
+//@ func (*Server).Auth
+//@ requires srvOK(server) && conn != nil
+//@ assigns conn.username, conn.password, conn.hasPassword, conn.authrized, authed
+//@ defines authed: old(authed) || err == nil
+//@ ensures {C08} err == nil ==> conn.authrized && result0 != nil
+//@ ensures {C08} err != nil ==> conn.authrized == old(conn.authrized) && result0 == nil
+//@ ensures {C08} conn.password == password && conn.hasPassword && conn.username == username
+
+// the interfaces through which the executors reach those handlers
+//@ interface redis.SystemCommandHandler.Ping(conn, arg)
+//@ ensures err == nil && result0 != nil
+//@ interface redis.SystemCommandHandler.Echo(conn, arg)
+//@ ensures err == nil && result0 != nil
+//@ interface redis.SystemCommandHandler.Select(conn, index)
+//@ assigns conn.id
+//@ ensures err == nil && result0 != nil && conn.id == index
+//@ interface redis.SystemCommandHandler.Quit(conn)
+//@ ensures err == ErrQuit && result0 != nil
+//@ interface redis.SystemCommandHandler.ConfigSet(conn, params)
+//@ assigns comp:MD|Str|Str, comp:MV|Str|Str
+//@ ensures err == nil && result0 != nil
+//@ interface redis.SystemCommandHandler.ConfigGet(conn, keys)
+//@ ensures err == nil && result0 != nil
+//@ interface redis.AuthCommandHandler.Auth(conn, username, password)
+//@ assigns conn.username, conn.password, conn.hasPassword, conn.authrized, authed
+//@ ensures {C08} conn.authrized && !old(conn.authrized) ==> authed
+//@ ensures {C08} old(authed) ==> authed
+//@ ensures {C08} err != nil ==> conn.authrized == old(conn.authrized)
+
+// ---------------------------------------------------------------- sugar_commander.go
+
+//@ func (*Server).registerSugarExecutors$1
+//@ requires conn != nil
+//@ requires_captured srvOK(server) && server.userCommandHandler != nil
+//@ assigns H_*
+//@ flag no_overflow
+//@ ensures {C12} err == nil ==> result0 != nil
+
+//@ executor "MGET"
+//@ loop 0
+//@   invariant arrayMsg != nil && fresh(arrayMsg) && array != nil && fresh(array) && fresh(array.msgs) && array.index == 0
+//@   invariant -1 <= rangeindex && rangeindex < len(keys) && len(array.msgs) == rangeindex + 1
+//@   invariant {C20} span_depth == old(span_depth)
+//@   decreases len(keys) - rangeindex
+
+//@ executor "HMGET"
+//@ loop 0
+//@   invariant arrayMsg != nil && fresh(arrayMsg) && array != nil && fresh(array) && fresh(array.msgs) && array.index == 0
+//@   invariant -1 <= rangeindex && rangeindex < len(fields) && len(array.msgs) == rangeindex + 1
+//@   invariant {C20} span_depth == old(span_depth)
+//@   decreases len(fields) - rangeindex
+
+//@ executor "HKEYS"
+//@ loop 0
+//@   invariant arrayMsg != nil && retMsg != nil && fresh(retMsg) && retMsg.Type == proto.ArrayMessage && retMsg.array != nil && fresh(retMsg.array) && fresh(retMsg.array.msgs)
+//@   invariant {C20} span_depth == old(span_depth)
+//@   decreases len(arrayMsg.msgs) - arrayMsg.index + (nextMsg != nil ? 1 : 0)
+
+//@ executor "HVALS"
+//@ loop 0
+//@   invariant arrayMsg != nil && retMsg != nil && fresh(retMsg) && retMsg.Type == proto.ArrayMessage && retMsg.array != nil && fresh(retMsg.array) && fresh(retMsg.array.msgs)
+//@   invariant {C20} span_depth == old(span_depth)
+//@   decreases len(arrayMsg.msgs) - arrayMsg.index + (nextMsg != nil ? 1 : 0)
+
+//@ executor "SCARD"
+//@ loop 0
+//@   invariant arrayMsg != nil && 0 <= memberCount && memberCount + (nextMsg != nil ? 1 : 0) <= arrayMsg.index
+//@   decreases len(arrayMsg.msgs) - arrayMsg.index + (nextMsg != nil ? 1 : 0)
+
+//@ executor "ZCARD"
+//@ loop 0
+//@   invariant arrayMsg != nil && 0 <= memberCount && memberCount + (nextMsg != nil ? 1 : 0) <= arrayMsg.index
+//@   decreases len(arrayMsg.msgs) - arrayMsg.index + (nextMsg != nil ? 1 : 0)
+
+//@ executor "SISMEMBER"
+//@ loop 0
+//@   invariant arrayMsg != nil
+//@   decreases len(arrayMsg.msgs) - arrayMsg.index + (nextMsg != nil ? 1 : 0)
+
+//@ executor "ZADD"
+//@ loop 0
+//@   invariant {C03} args.index <= len(args.msgs)
+//@   decreases len(args.msgs) - args.index + (err == nil ? 1 : 0)
+//@ loop 1
+//@   invariant {C03} args.index <= len(args.msgs) && fresh(members)
 //@   decreases len(args.msgs) - args.index + (err == nil ? 1 : 0)
